@@ -317,6 +317,24 @@ pub fn run_batch(prop: &Prop, cfg: &BatchCfg) -> i32 {
             }
         }
     }
+    // every quick run repeats a slice of the determinism self-test (two processes sets, different worker counts)
+    let det_n = if cfg.tier == Tier::Quick { 96 } else { 400 };
+    let det_ok = determinism_slice(prop, cfg.seed, det_n);
+    if !det_ok {
+        eprintln!("harness error: determinism slice failed for {} ({} seeds): event logs differ between processes", prop.id, det_n);
+    }
+    // thorough tier of the stream-level properties: confirm the stubs against the real CLI
+    let mut e2e_json = serde_json::Value::Null;
+    let mut e2e_bad = false;
+    if cfg.tier == Tier::Thorough && ["C01", "C13", "C16"].contains(&prop.id) {
+        match crate::e2e::run_for(&[prop.id], 150, cfg.seed) {
+            Ok(r) => {
+                e2e_bad = r.disagreements > 0;
+                e2e_json = json!({"exported_file_scripts": r.runs, "lines": r.lines, "with_rows_listed": r.with_rows, "with_counter_line": r.with_counter, "builds": ["debug", "release"], "disagreements": r.disagreements});
+            }
+            Err(e) => { eprintln!("harness error: end-to-end stage: {}", e); e2e_bad = true; }
+        }
+    }
     let wall = t0.elapsed().as_secs_f64();
     for (id, (n, ex)) in &known_hits {
         let what = known.entries.iter().find(|e| &e.id == id).map(|e| e.what.clone()).unwrap_or_default();
@@ -346,7 +364,8 @@ pub fn run_batch(prop: &Prop, cfg: &BatchCfg) -> i32 {
         eprintln!("harness error: {:.0}% of the runs were discarded because the decoder crashed; no verdict for {}", discard_ratio * 100.0, prop.id);
         exit = 2;
     }
-    write_evidence(prop, cfg, &stats, wall, n_viol, &known_hits, &profiles, &per_profile);
+    if (!det_ok || e2e_bad) && exit == 0 { exit = 2; }
+    write_evidence(prop, cfg, &stats, wall, n_viol, &known_hits, &profiles, &per_profile, (det_n, det_ok), e2e_json);
     println!(
         "{} {}: {} runs ({} executions, {} non-trivial) in {:.1}s, {} distinct non-trivial cases, {} abstract states, {} event bigrams, violations={} known-findings={} discarded={}",
         prop.id, if cfg.tier == Tier::Quick { "quick" } else { "thorough" }, stats.runs, stats.executions, stats.nontrivial_runs, wall, stats.scripts.len(), stats.states.len(), stats.bigrams.len(), n_viol, known_hits.len(), stats.discarded_by_crash
@@ -430,7 +449,7 @@ pub fn minimise_file(inp: &str, out: &str) -> i32 {
 }
 
 #[allow(clippy::too_many_arguments)]
-fn write_evidence(prop: &Prop, cfg: &BatchCfg, s: &Stats, wall: f64, n_viol: usize, known_hits: &BTreeMap<String, (u64, Option<Found>)>, profiles: &[String], per_profile: &BTreeMap<String, u64>) {
+fn write_evidence(prop: &Prop, cfg: &BatchCfg, s: &Stats, wall: f64, n_viol: usize, known_hits: &BTreeMap<String, (u64, Option<Found>)>, profiles: &[String], per_profile: &BTreeMap<String, u64>, det: (u64, bool), e2e: serde_json::Value) {
     let dir = root_dir().join("evidence");
     let _ = std::fs::create_dir_all(&dir);
     let per_hour = |n: u64| if wall > 0.0 { (n as f64 / wall * 3600.0) as u64 } else { 0 };
@@ -464,6 +483,8 @@ fn write_evidence(prop: &Prop, cfg: &BatchCfg, s: &Stats, wall: f64, n_viol: usi
             "profiles": profiles,
             "runs_per_profile": per_profile,
             "jobs": cfg.jobs,
+            "end_to_end_real_cli": e2e,
+            "determinism_slice": {"seeds": det.0, "processes_per_seed": 2, "worker_counts": [8, 3], "event_logs_and_verdicts_identical": det.1},
             "known_findings_matched": known_hits.iter().map(|(k, v)| (k.clone(), json!(v.0))).collect::<serde_json::Map<_, _>>(),
             "components": {
                 "real_code": ["clap option parsing (Args)", "reader thread (spawn_reader_thread, read_lines, connect_and_read_tcp, read_from_file)", "every decoder", "Planes / Plane table, sweep, sorting, formatting, counters", "std BufReader / lines()"],
@@ -495,8 +516,57 @@ pub fn digest_runs(prop: &Prop, seed: u64, start: u64, stride: u64, n: u64) -> V
     while i < n {
         let case = case_for(prop, seed, i, Tier::Quick);
         let h = crate::exec::run(&case.script);
-        out.push((i, crate::exec::digest(&h)));
+        let mut st = Stats::default();
+        let vs = (prop.check)(&case, &mut st);
+        let verdict = format!("{:?}|{}|{}", vs, st.oracle_evals, st.nontrivial_runs);
+        out.push((i, crate::exec::digest(&h) ^ crate::stats::fnv(verdict.as_bytes()).rotate_left(17)));
         i += stride;
     }
     out
+}
+
+/// Determinism self-test: every run index is executed in three different
+/// processes (two passes with one worker count, one pass with another); the
+/// digests of the complete event logs and verdicts must agree.
+fn digest_pass(prop: &Prop, seed: u64, stride: u64, n: u64) -> BTreeMap<u64, String> {
+    let me = std::env::current_exe().expect("current_exe");
+    let kids: Vec<std::process::Child> = (0..stride)
+        .map(|j| std::process::Command::new(&me).args(["digest", prop.id, &seed.to_string(), &j.to_string(), &stride.to_string(), &n.to_string()]).env("SIMCHECK_ROOT", root_dir()).stdout(std::process::Stdio::piped()).spawn().expect("spawn"))
+        .collect();
+    let mut m = BTreeMap::new();
+    for k in kids {
+        let out = k.wait_with_output().expect("wait");
+        for l in String::from_utf8_lossy(&out.stdout).lines() {
+            if let Some((i, d)) = l.split_once(' ') { m.insert(i.parse().unwrap_or(u64::MAX), d.to_string()); }
+        }
+    }
+    m
+}
+
+/// The slice of the determinism self-test that every quick run repeats.
+pub fn determinism_slice(prop: &Prop, seed: u64, n: u64) -> bool {
+    let (a, b) = (digest_pass(prop, seed, 8, n), digest_pass(prop, seed, 3, n));
+    (0..n).all(|i| a.get(&i).is_some() && a.get(&i) == b.get(&i))
+}
+
+pub fn selftest_determinism(ids: &[String], n: u64, seed: u64) -> i32 {
+    let mut bad = 0;
+    for prop in props::all() {
+        if !ids.is_empty() && !ids.iter().any(|i| i == prop.id) { continue; }
+        let t0 = Instant::now();
+        let pass = |stride: u64| digest_pass(&prop, seed, stride, n);
+        let (a, b, c) = (pass(16), pass(16), pass(5));
+        let mut diverged = vec![];
+        for i in 0..n {
+            let (x, y, z) = (a.get(&i), b.get(&i), c.get(&i));
+            if x.is_none() || x != y || x != z { diverged.push(i); }
+        }
+        if diverged.is_empty() {
+            println!("determinism {}: {} seeds x 3 processes (worker counts 16, 16, 5): event logs and verdicts identical ({:.1}s)", prop.id, n, t0.elapsed().as_secs_f64());
+        } else {
+            println!("determinism {}: {} of {} seeds DIVERGED, e.g. run {:?}", prop.id, diverged.len(), n, &diverged[..diverged.len().min(5)]);
+            bad += 1;
+        }
+    }
+    if bad > 0 { eprintln!("harness error: the simulator is not deterministic"); 2 } else { 0 }
 }
